@@ -56,8 +56,8 @@ type world struct {
 	mu       sync.Mutex
 	handlers map[string]http.Handler
 	table    map[string]*script // scripts by id (concurrent stream)
-	client   *http.Client // the end client: no transparent decompression, no redirects
-	rawBE    *http.Client // gateway -> backend, compression handling disabled
+	client   *http.Client       // the end client: no transparent decompression, no redirects
+	rawBE    *http.Client       // gateway -> backend, compression handling disabled
 }
 
 type gwcfg struct {
